@@ -509,6 +509,21 @@ pub fn run(ctx: &mut Ctx) {
         ctx.count("special");
         ctx.emit(&format!("load {}", files_tokens(&files, main)), || load_files(&tp, &files, main));
     }
+    // 6. parse errors on long lines whose bytes around the excerpt's cut positions (20 before the error column, 40 bytes on)
+    // are not character boundaries - runs of continuation bytes, truncated sequences, multi-byte characters
+    let fillers: [&[u8]; 7] = [b"a", b"\x80", b"\xbf", "é".as_bytes(), b"\x80\xbf\x90\xa0", b"\xe6\x97", b"\xf0\x9f\x98"];
+    for fa in [0usize, 1, 2, 3, 13, 14, 15, 16, 17, 18, 19, 20, 21, 22, 23, 24, 36, 40, 44, 60] {
+        for fb in [0usize, 14, 15, 16, 17, 18, 19, 20, 21, 22, 23, 24, 30, 50] {
+            for fl in fillers {
+                let fill = |n: usize| -> Vec<u8> { fl.iter().cycle().take(n).cloned().collect() };
+                let mut m: Vec<u8> = b"build ".to_vec();
+                m.extend(fill(fa)); m.extend_from_slice(b"$!"); m.extend(fill(fb)); m.push(b'\n');
+                let files = vec![("build.ninja".to_string(), m)];
+                ctx.count("long_line_errors");
+                ctx.emit(&format!("load {}", files_tokens(&files, "build.ninja")), || load_files(&tp, &files, "build.ninja"));
+            }
+        }
+    }
     // 5. strings that are awkward to quote in a diagnostic (finding F15), in every position the
     // loader quotes or stores one
     for tag in crate::m_diag::TAGS {
